@@ -27,6 +27,7 @@ import common
 from common import Ctx, Outcome
 
 import props.c01 as c01
+import props.xml_ns as xml_ns
 
 DRIVERS = ["Xml"]
 TABLES = True
@@ -272,6 +273,8 @@ class History:
         self._diagrams = None
         self.touched: set = set()
         self.model_checked: set = set()
+        self.undo: list = []
+        self.ns_tried: set = set()
 
     def objs(self):
         """objects of the primary resource (libraries are separate, read-only resources that save() does not write)"""
@@ -327,6 +330,63 @@ class History:
         except Exception as e:  # noqa: BLE001
             self.out.hit("refused:" + type(e).__name__)
 
+    def undo_rounds(self, save, variants) -> bool:
+        """directed, at the very start of a history (the trees still serialise to the loaded bytes): edit -> save ->
+        the exact inverse edit -> save, each save followed by the reload comparison. `save(tag)` returns False to stop."""
+        rng, m = self.rng, self.m
+        for v in variants:
+            try:
+                if v == "attribute":
+                    o = rng.choice([x for x in self.objs() if x._element.get("name")] or self.objs())
+                    attr = rng.choice(["name", "summary", "description"])
+                    xml_attr = attr
+                    old = o._element.get(xml_attr)
+                    setattr(o, attr, (old or "") + " (draft " + rand_str(rng) + ")")
+                    self.touched.add(o.uuid)
+                    self.log.append({"op": f"set {type(o).__name__}.{attr}", "arg": "value + draft suffix"})
+                    self.ok_since_save += 1
+                    if not save("undo-attr-1"):
+                        return False
+                    setattr(o, attr, old if old is not None else "")
+                    undone = o._element.get(xml_attr) == old
+                    self.log.append({"op": f"restore {type(o).__name__}.{attr}", "arg": old, "exact": undone})
+                elif v == "create":
+                    owner = self.pick("LogicalComponent", "SystemComponent", "PhysicalComponent") or m.la.root_component
+                    kind = rng.choice(["components", "ports", "constraints", "property_value_groups"])
+                    obj = getattr(owner, kind).create(name="undo " + rand_str(rng))
+                    self.touched.add(owner.uuid)
+                    self._objs = None
+                    self.log.append({"op": f"create {type(owner).__name__}.{kind}", "arg": ""})
+                    self.ok_since_save += 1
+                    if not save("undo-create-1"):
+                        return False
+                    getattr(owner, kind).remove(obj)
+                    self._objs = None
+                    self.log.append({"op": f"delete the created object from {kind}", "arg": ""})
+                elif v == "move":
+                    fns = [f for f in self.objs() if type(f).__name__ == "LogicalFunction" and type(f.parent).__name__ == "LogicalFunction"]
+                    pairs = [(a, b) for a in fns for b in fns if a is not b and a.parent == b.parent][:50]
+                    if not pairs:
+                        continue
+                    a, b = rng.choice(pairs)
+                    parent = a.parent
+                    idx = [x.uuid for x in parent.functions].index(a.uuid)
+                    b.functions.append(a)
+                    self.log.append({"op": "move function below a sibling", "arg": ""})
+                    self.ok_since_save += 1
+                    if not save("undo-move-1"):
+                        return False
+                    parent.functions.insert(idx, a)
+                    self.log.append({"op": "move function back to its old place", "arg": idx})
+                self.ok_since_save += 1
+                self.out.hit("op:undo-" + v)
+            except Exception as e:  # noqa: BLE001
+                self.out.hit("refused:" + type(e).__name__)
+                self.log.append({"op": "undo round " + v, "refused": type(e).__name__})
+            if not save("undo-" + v + "-2"):
+                return False
+        return True
+
     def all_spec_boundaries(self):
         """directed: every boundary string (']]>' among them) goes into the body of a different specification"""
         owners = []
@@ -352,15 +412,38 @@ class History:
     def step(self):
         rng, m = self.rng, self.m
         op = rng.choice(["set_str"] * 5 + ["create"] * 4 + ["delete", "move", "alloc", "flag", "spec", "spec", "req", "pv",
-                         "diagram", "diagram"])
+                         "diagram", "diagram", "undo", "undo", "ns"])
         s = rand_str(rng)
         desc = op
         try:
             if op == "set_str":
                 o = rng.choice(self.objs())
                 attr = rng.choice(["name", "name", "summary", "description"])
+                old = o._element.get(attr)
                 setattr(o, attr, s)
+                self.undo.append((o, attr, old))
                 desc = f"set {type(o).__name__}.{attr}"
+            elif op == "undo":
+                # the exact inverse of an earlier attribute edit (the tree may serialise to earlier bytes again)
+                if not self.undo:
+                    return
+                o, attr, old = self.undo.pop()
+                setattr(o, attr, old if old is not None else "")
+                desc = f"restore {type(o).__name__}.{attr}"
+            elif op == "ns":
+                # the last user of a type prefix goes away / the first user of an undeclared one appears
+                users = xml_ns.users_by_prefix(m)
+                small = sorted(p for p, es in users.items() if len(es) <= 30 and not any(e.getparent().getparent() is None for e in es))
+                if small and rng.random() < 0.6:
+                    p = rng.choice(small)
+                    removed, left = xml_ns.remove_users(m, p, self.out)
+                    desc = f"remove every user of type prefix {p} ({removed} removed, {left} left)"
+                    self.created = [c for c in self.created if c[2]._element.getparent() is not None]
+                else:
+                    declared = {k for _, f in xml_ns.primary_semantic(m) for k in f.root.nsmap if k}
+                    r = xml_ns.add_first_user(m, rng, self.out, declared, self.ns_tried)
+                    desc = f"add first user of an undeclared type prefix: {r}"
+                self._objs = None
             elif op == "diagram":
                 # diagrams live in the visual fragment (.aird) of the primary resource; name / description are writable
                 dgs = self.diagrams()
@@ -481,6 +564,18 @@ def save_and_compare(h: History, path: pathlib.Path, capellambse, key, cases: li
     replay = {"kind": "history", "model": str(path.relative_to(h.ctx.scratch / "c02").parts[1:] and pathlib.Path(*path.relative_to(h.ctx.scratch / "c02").parts[1:])),
               "label": h.label, "log": list(h.log)}
     last = next((l for l in reversed(h.log) if "refused" not in l), {"op": "none"})
+    # the in-memory semantic trees and the viewpoints as save() is about to see them (model of update_namespaces)
+    ns_before, ns_vps = {}, []
+    if model_side:
+        try:
+            ns_vps = [[k, v] for k, v in dict(m._loader.referenced_viewpoints()).items()]
+            for name, frag in xml_ns.primary_semantic(m):
+                fl: set = set()
+                d0 = c01.export_doc(frag.root, fl)
+                if not fl:
+                    ns_before[name] = d0
+        except Exception:  # noqa: BLE001
+            ns_before = {}
     try:
         m.save()
     except Exception as e:  # noqa: BLE001
@@ -498,6 +593,9 @@ def save_and_compare(h: History, path: pathlib.Path, capellambse, key, cases: li
                  f"the model saved after {len(h.log)} API operations (last: {last}) cannot be loaded: {type(e).__name__}: {str(e)[:200]}", replay)
         return False
     check_type_namespaces(m, path, out, replay, h.label)  # after the reload: the files are known to be parseable
+    xml_ns.check_written_namespaces(out, etree, path.parent, list(frag_roots(m)), h.label, replay)
+    if model_side and (h.ctx.thorough or sum(p.stat().st_size for p in path.parent.iterdir() if p.is_file()) < 600_000):
+        xml_ns.resave_fixpoint(out, lambda p: load(capellambse, p), path, h.label, replay)
     roots2 = frag_roots(m2)
     for name, tree in mem.items():
         d = diff(tree, canon(roots2[name])) if name in roots2 else ("fragment-missing", name)
@@ -529,6 +627,10 @@ def save_and_compare(h: History, path: pathlib.Path, capellambse, key, cases: li
             if name in h.model_checked or (len(b) > 500_000 and not h.ctx.thorough):
                 continue
             h.model_checked.add(name)
+        if name in ns_before:
+            cases.append(({"op": "xml.updateNs", "doc": ns_before[name], "vps": ns_vps},
+                          ("ns.api", {"file": name, "log": h.log[-3:]},
+                           {"doc": doc, "replaced": doc["root"][1] != ns_before[name]["root"][1] or doc["post"] != ns_before[name]["post"]})))
         shaped = c01.capella_shaped(doc)
         want = {"out": b.decode("utf-8"), "wf": shaped}
         if shaped:
@@ -669,6 +771,13 @@ def run(ctx: Ctx) -> Outcome:
                 raise common.InfraError(f"cannot load corpus model {label}: {e!r}") from e
             h = History(ctx, out, m, label)
             saves = 0
+            # directed part 0: edit -> save -> exact inverse edit -> save, before anything else touched the trees
+            big = aird.stat().st_size > 100_000 or (aird.parent / (aird.stem + ".capella")).stat().st_size > 400_000
+            variants = ["attribute"] if (big and not ctx.thorough) else (["attribute", "create", "move"] if hi == 0 else
+                                                                          [ctx.rng.choice(["attribute", "create", "move"])])
+            if not h.undo_rounds(lambda tag: save_and_compare(h, path, capellambse, (label, ctx.seed, hi, tag), cases), variants):
+                shutil.rmtree(path.parent.parent, ignore_errors=True)
+                continue
             # directed part: (first history of a model) every boundary string in a specification body, one save;
             # then two boundary strings per history, each followed by a save + reload
             if hi == 0:
@@ -697,6 +806,9 @@ def run(ctx: Ctx) -> Outcome:
         for (req, (stream, case, want)), ans in zip(cases, answers):
             mv = ans.get("ok", {"err": ans.get("err")})
             out.hit(stream)
+            if req["op"] == "xml.updateNs":
+                xml_ns.compare_update(out, stream, case, req["doc"], want, mv)
+                continue
             want = json.loads(json.dumps(want))
             if isinstance(mv, dict) and mv.get("wf") is False and want.get("wf") is False and "out" in want:
                 mv = {k: v for k, v in mv.items() if k in ("out", "wf")}
